@@ -8,6 +8,8 @@ import (
 	"os"
 	"sort"
 	"strings"
+	"sync"
+	"sync/atomic"
 	"testing"
 	"time"
 
@@ -53,6 +55,12 @@ type Case struct {
 	AssertKnown bool `json:"assert_known,omitempty"`
 	// Repeat: replays only - run the case that many times (schedule-dependent findings)
 	Repeat int `json:"repeat,omitempty"`
+	// Busy: that many goroutines of the harness spin from the start call until shortly after the stop request, so that
+	// the goroutines the library starts do not get a processor at once (what a loaded machine does by itself)
+	Busy int `json:"busy,omitempty"`
+	// OneCPU: the test process (and the processes it starts) are confined to one processor until shortly after the stop
+	// request: with Busy spinners this is an overloaded machine in small
+	OneCPU bool `json:"one_cpu,omitempty"`
 }
 
 func genNode(t *rapid.T, depth int, budget *int, isRoot bool, rootMustLive bool) proctree.Node {
@@ -112,6 +120,10 @@ func genCase(t *rapid.T) Case {
 		c.Tree.LiveMs, c.Tree.WaitChildren = longLife, false
 	}
 	c.StopAtMs = rapid.SampledFrom([]int{-1, -1, -1, 0, 1, 3, 5, 10, 25}).Draw(t, "stop-at-ms")
+	if c.StopAtMs >= 0 && rapid.IntRange(0, 2).Draw(t, "busy") == 0 {
+		c.Busy = rapid.SampledFrom([]int{1, 4, 16, 64}).Draw(t, "spinners")
+		c.OneCPU = rapid.Bool().Draw(t, "one-cpu")
+	}
 	return c
 }
 
@@ -201,6 +213,21 @@ func check(t ev.T, test string, c Case) {
 
 	var p *subprocess.Subprocess
 	done := make(chan error, 1) // the call that the stop request must release
+	var idle atomic.Bool
+	unconfine := func() {}
+	if c.OneCPU {
+		unconfine = sync.OnceFunc(proctree.Confine())
+		defer unconfine()
+	}
+	if c.Busy > 0 {
+		for i := 0; i < c.Busy; i++ {
+			go func() {
+				for !idle.Load() {
+				}
+			}()
+		}
+		defer idle.Store(true)
+	}
 	began := time.Now()
 	switch c.Start {
 	case "execute":
@@ -280,6 +307,10 @@ func check(t ev.T, test string, c Case) {
 	case "Restart":
 		t0 = time.Now()
 		go func() { stopDone <- p.Restart() }()
+	}
+
+	if c.Busy > 0 {
+		time.AfterFunc(20*time.Millisecond, func() { idle.Store(true); unconfine() })
 	}
 
 	// ---- (1) the call returns within the bound
@@ -483,6 +514,26 @@ func check(t ev.T, test string, c Case) {
 	ev.Class(cls)
 }
 
+// checkConfirmed runs a case; what looks like a violation must show again in at least one of six further runs of the very
+// same case before it is reported. Real processes on a shared machine are exposed to events no oracle can see (a signal
+// from elsewhere, a /proc read failing under pressure ...): a one-off is counted as inconclusive. A defect of the library
+// that needs a particular instant still shows, since the same instants are generated again and again.
+func checkConfirmed(t ev.T, test string, c Case) {
+	ok, msg := ev.RunIsolated(func(it ev.T) { check(it, test, c) })
+	if ok {
+		return
+	}
+	if strings.Contains(msg, "HARNESS") {
+		t.Fatalf("%s", msg)
+	}
+	for i := 0; i < 6; i++ {
+		if ok2, msg2 := ev.RunIsolated(func(it ev.T) { check(it, test, c) }); !ok2 && !strings.Contains(msg2, "HARNESS") {
+			ev.Fail(t, prop, test, c, "%s [seen again in run %d of the same case]", strings.TrimPrefix(msg2, "ORACLE property=C05 test="+test+": "), i+2)
+		}
+	}
+	ev.Inconclusive("a violation seen once did not show again in six more runs of the same case")
+}
+
 func shape(n *proctree.Node) (depth, count int, ignoring, closing, shortParent bool) {
 	count = 1
 	ignoring, closing = n.IgnoreTerm, n.ClosePipes
@@ -515,7 +566,7 @@ func TestTrees(t *testing.T) {
 		if sp {
 			ev.Class("tree has a parent that exits before its children")
 		}
-		check(rt, "TestTrees", c)
+		checkConfirmed(rt, "TestTrees", c)
 	})
 }
 
@@ -526,7 +577,7 @@ func init() {
 			t.Fatalf("HARNESS: %v", err)
 		}
 		for i := 0; i < maxInt(1, c.Repeat); i++ {
-			check(t, "TestTrees", c)
+			checkConfirmed(t, "TestTrees", c)
 		}
 	})
 }
